@@ -299,7 +299,7 @@ def exhaustive(rng):
 
 def gen(rng, tier):
     ops = []
-    for _ in range(budget(tier, 30, 400)):
+    for _ in range(budget(tier, 30, 250)):
         ops += session(rng, tier, calm=(rng.randrange(3) == 0))
     if tier == "thorough":
         ops += exhaustive(rng)
